@@ -5,6 +5,7 @@ import (
 	"sort"
 	"strings"
 	"testing"
+	"time"
 )
 
 func sortStrings(s []string) { sort.Strings(s) }
@@ -46,6 +47,27 @@ func genC10(r *Rng, tier string) *Plan {
 	g.AddUnrelated(r.Intn(4))
 	g.ImportKeys()
 	flags := uint8(r.Intn(16))
+	if r.Chance(1, 8) {
+		// a validity that ends at the next local midnight, the run takes place in the hour before it:
+		// nothing is expired yet, so -e has nothing to do, in the first run and in the second
+		g.P.TZ = Pick(r, []string{"UTC", "Europe/Berlin", "fixed:+05:30", "America/New_York"})
+		loc := loadTZ(g.P.TZ)
+		day := simEpoch.Add(time.Duration(g.P.Clock0) * time.Second).In(loc)
+		midnight := time.Date(day.Year(), day.Month(), day.Day()+1, 0, 0, 0, 0, loc)
+		g.P.Clock0 = int64(midnight.Add(-time.Duration(r.Range(5, 55)) * time.Minute).Sub(simEpoch).Seconds())
+		g.P.StepMs, g.P.LatMicros = 0, 0
+		if g.P.GranNs > 1e9 {
+			g.P.GranNs = 1e9
+		}
+		e := Pick(r, g.Ents)
+		e.Validity = &ValSpec{Until: midnight.Format("2006-01-02")}
+		if r.Bool() {
+			e.Validity.From = "1999-05-06"
+		}
+		e.Profile = ""
+		flags |= FlagE
+		g.P.Meta["near-expiry"] = "1"
+	}
 	if r.Chance(3, 4) {
 		g.Run(DefaultFlags, "setup")
 		if r.Chance(1, 4) {
@@ -97,6 +119,9 @@ func exploreC10(t *testing.T, seed uint64, idx int, tier string, sink *Sink) {
 	sink.Cell("flags:" + plan.Meta["flags"])
 	if plan.Meta["ties"] != "" {
 		sink.Cell("timestamps-tie")
+	}
+	if plan.Meta["near-expiry"] != "" {
+		sink.Cell("near-expiry")
 	}
 	sink.Cell("lane:S")
 	sink.Report(w)
